@@ -140,6 +140,30 @@ class Const(Expr):
     def subst(self, inst):
         return self
 
+def priority(e):
+    """Priority of the top-level operator of e, as used in parser2.py."""
+    if isinstance(e, Op):
+        if len(e.args) == 1:
+            return 80 if e.op == '-' else 40
+        elif e.op == '*':
+            return 70
+        elif e.op in ('+', '-'):
+            return 65
+        elif e.op in ('==', '!=', '<=', '<', '>=', '>'):
+            return 50
+        elif e.op == '&':
+            return 35
+        elif e.op == '|':
+            return 30
+        elif e.op == '-->':
+            return 25
+        else:
+            return 20
+    elif isinstance(e, (ITE, Forall)):
+        return 10
+    else:
+        return 100
+
 class Op(Expr):
     """One of pre-specified operators."""
     def __init__(self, op, *args):
@@ -162,16 +186,34 @@ class Op(Expr):
         return "Op(%s,%s)" % (self.op, ",".join(repr(arg) for arg in self.args))
 
     def __str__(self):
+        # Brackets are inserted according to the priorities and associativity
+        # used by the parser (see parser2.py), so that the printed form parses
+        # back to the same expression.
+        def bracket(arg):
+            return '(' + str(arg) + ')'
+
         if len(self.args) == 1:
-            return "%s%s" % (self.op, str(self.args[0]))
+            arg = self.args[0]
+            if self.op == '-':
+                need = isinstance(arg, Op) and len(arg.args) == 2
+            else:
+                need = priority(arg) < priority(self)
+            return "%s%s" % (self.op, bracket(arg) if need else str(arg))
         elif len(self.args) == 2:
-            arg1 = str(self.args[0])
-            arg2 = str(self.args[1])
-            if self.op == '*' and isinstance(self.args[0], Op) and self.args[0].op in ('+', '-'):
-                arg1 = '(' + arg1 + ')'
-            if self.op == '*' and isinstance(self.args[1], Op) and self.args[1].op in ('+', '-'):
-                arg2 = '(' + arg2 + ')'
-            return "%s %s %s" % (arg1, self.op, arg2)
+            arg1, arg2 = self.args
+            if self.op in ('+', '-', '*'):
+                # Left associative
+                need1 = priority(arg1) < priority(self)
+                need2 = priority(arg2) <= priority(self)
+            elif self.op in ('&', '|', '-->', '<-->'):
+                # Right associative
+                need1 = priority(arg1) <= priority(self)
+                need2 = priority(arg2) < priority(self)
+            else:
+                need1 = priority(arg1) <= priority(self)
+                need2 = priority(arg2) <= priority(self)
+            return "%s %s %s" % (bracket(arg1) if need1 else str(arg1), self.op,
+                                 bracket(arg2) if need2 else str(arg2))
         else:
             raise NotImplementedError
 
@@ -260,7 +302,9 @@ class ITE(Expr):
         return "ITE(%s,%s,%s)" % (repr(self.cond), repr(self.e1), repr(self.e2))
 
     def __str__(self):
-        return "if %s then %s else %s" % (str(self.cond), str(self.e1), str(self.e2))
+        def bracket(e):
+            return '(' + str(e) + ')' if isinstance(e, (ITE, Forall)) else str(e)
+        return "if %s then %s else %s" % (bracket(self.cond), bracket(self.e1), str(self.e2))
 
     def __eq__(self, other):
         return isinstance(other, ITE) and self.cond == other.cond and \
